@@ -1,5 +1,6 @@
 import PynencModel.Props.C01
-open Pynenc.C01
+import PynencModel.Props.C01Scan
+open Pynenc.C01 Pynenc.C01S
 #print axioms enum_covered
 #print axioms table_edges_eq_doc
 #print axioms table_flags_eq_doc
@@ -12,3 +13,7 @@ open Pynenc.C01
 #print axioms every_status_reachable
 #print axioms setStatus_err_unchanged
 #print axioms setStatus_ok_writes
+#print axioms scan_inv_step
+#print axioms scans_move_nothing
+#print axioms repairing_scan_loses_the_invocation
+#print axioms code_scans_only_read
